@@ -24,29 +24,10 @@ func (m *Model) RunEscape(s *Sink, rule string) {
 		s.Undecided(rule, "Eval", "-", "Eval not found")
 		return
 	}
+	// which evaluator function handles a string literal: Eval is evaluated on an abstract *ast.StringLiteral
 	var litFn *ssa.Function
-	for _, b := range evalFn.Blocks {
-		isCase := false
-		for _, fc := range expandFacts(factsAt(b)) {
-			if ex, ok := fc.Cond.(*ssa.Extract); ok && fc.Holds && ex.Index == 1 {
-				if ta, ok := ex.Tuple.(*ssa.TypeAssert); ok && typeStr(ta.AssertedType) == "*ast.StringLiteral" {
-					// the innermost case: this block must be the direct true-successor
-					if len(b.Preds) == 1 {
-						if iff, ok := b.Preds[0].Instrs[len(b.Preds[0].Instrs)-1].(*ssa.If); ok && iff.Cond == ssa.Value(ex) {
-							isCase = true
-						}
-					}
-				}
-			}
-		}
-		if !isCase {
-			continue
-		}
-		for _, in := range b.Instrs {
-			if c, ok := in.(*ssa.Call); ok && c.Call.StaticCallee() != nil && inPkg(c.Call.StaticCallee(), "evaluator") {
-				litFn = c.Call.StaticCallee()
-			}
-		}
+	if _, hs, _ := m.evalOnNode("StringLiteral", map[string]any{"Value": constant.MakeString("a<b")}); len(hs) > 0 {
+		litFn = hs[len(hs)-1]
 	}
 	if litFn == nil {
 		s.Undecided(rule, "Eval|case *ast.StringLiteral", m.Pos(evalFn.Pos()), "the Eval case for string literals does not call an evaluator function")
